@@ -20,6 +20,9 @@ package c15
 //      operations of the production backends: flush, flush+compact, close+reopen on the same MemFS, after every
 //      write group in every committing write mode, with the full observer programme after each of them
 //      (A–C read every version out of pebble's memtable; E reads them out of sstables and a replayed WAL).
+//   F  (views_test.go) histories whose alphabet holds the LIFETIME events of several simultaneously live views of one
+//      store (open / close snapshots, held iterators on the db / a snapshot / an indexed batch, indexed batches with a
+//      pending op, in every order) interleaved with writes; the store and every open view are read after every event.
 // Schedules are enumerated at operation granularity (every backend call is linearizable: memory takes
 // its RWMutex, pebble commits atomically), real goroutine races are not part of this check.
 
@@ -150,9 +153,12 @@ const (
 )
 
 // observe performs the selected reads on a reader; one line per call.
-func observe(r db.KeyValueReader, what int) obs {
-	o := make(obs, 0, 3*len(K)+1)
-	for _, k := range K {
+func observe(r db.KeyValueReader, what int) obs { return observeKeys(r, K, what) }
+
+// observeKeys: the point reads go over `keys` (section F uses the few keys its histories can touch).
+func observeKeys(r db.KeyValueReader, keys []string, what int) obs {
+	o := make(obs, 0, 3*len(keys)+1)
+	for _, k := range keys {
 		kb := []byte(k)
 		if what&oGet != 0 {
 			o = append(o, "Get("+hx(k)+")="+guardStr(func() string {
@@ -243,6 +249,7 @@ type rep struct {
 	writes int
 	bad    bool
 	opens  int64
+	limit  int // re-open after this many writes (0: maxWritesPerDB)
 }
 
 const maxWritesPerDB = 400 // re-open before version chains / tombstones make pebble iteration slow
@@ -258,7 +265,11 @@ func (p *rep) drop() {
 // ensure makes the backend hold exactly s (canonical construction: direct Puts on a fresh store, or the
 // minimal direct Put/Delete difference from the previous, model-agreed content).
 func (p *rep) ensure(s state) {
-	if p.d == nil || p.bad || p.writes > maxWritesPerDB {
+	limit := p.limit
+	if limit == 0 {
+		limit = maxWritesPerDB
+	}
+	if p.d == nil || p.bad || p.writes > limit {
 		p.drop()
 		p.d = p.be.open()
 		p.opens++
@@ -1344,15 +1355,20 @@ func TestCheck(t *testing.T) {
 	debug.SetGCPercent(1600)
 	r := ev.Start("C15", "model_checking")
 	c := &checker{r: r, viol: newCollector(), ext: newCollector(), procs: runtime.NumCPU()}
-	budget := ev.Pick(r, 150, 1620)
+	budget := ev.Pick(r, 170, 1740)
 	if b, err := strconv.Atoi(os.Getenv("VERIF_BUDGET_S")); err == nil {
 		budget = b
 	}
 	r.SetBudget(budget)
 	start := time.Now()
-	// cumulative shares of the wall budget, proportional to the measured CPU cost of the sections:
+	// Section F (view lifetimes, views_test.go) runs first and may use up to reservedF of the budget: it is small (a few
+	// seconds on an idle machine) and must never be the part a loaded machine cuts. Sections A-E then divide what is
+	// left at that moment by cumulative shares proportional to their measured CPU cost:
 	// quick A 30% B 62% C 80% E 100%; thorough A 11% B 41% C(≤3 moves) 50% C(≤4 moves) 70% E 100%
-	share := func(f float64) { c.secDeadline = start.Add(time.Duration(f * float64(budget) * float64(time.Second))) }
+	reservedF := ev.Pick(r, 0.35, 0.20)
+	until := func(f float64) { c.secDeadline = start.Add(time.Duration(f * float64(budget) * float64(time.Second))) }
+	usedByF := 0.0
+	share := func(f float64) { until(usedByF + (1-usedByF)*f) }
 
 	if pf := os.Getenv("C15_PROF"); pf != "" { // development only
 		f, _ := os.Create(pf)
@@ -1366,6 +1382,11 @@ func TestCheck(t *testing.T) {
 		r.Incomplete("C15_SECTIONS=" + only)
 	}
 
+	if want("F") {
+		until(reservedF)
+		c.sectionF(viewsConfig(r.Quick()))
+		usedByF = min(reservedF, time.Since(start).Seconds()/float64(budget))
+	}
 	if want("A") {
 		// quick: all maps with ≤ 2 keys + one map per 3-key set; thorough: all maps with ≤ 3 keys + one
 		// map per key set of 4..8 keys
@@ -1452,7 +1473,9 @@ func TestCheck(t *testing.T) {
 		"differential search: schedules are interleavings of whole interface calls; below that granularity only the commit of an in-memory batch is scheduled (atomic_test.go: every interleaving of the lock acquisitions of a committing writer with a consistent reader or a second writer, "+
 			"db/memory's RWMutex replaced by verif/mc/schedsync through a build overlay); unsynchronised accesses (data races proper) are out of scope",
 		"relative moves (Next/Prev) on an exhausted iterator other than Prev-after-failed-Seek and the first move of a fresh iterator are outside the documented contract: recorded under outside_contract_divergences, never a violation",
-		"Batch.Size() is compared only for batches without DeleteRange")
+		"Batch.Size() is compared only for batches without DeleteRange",
+		"section F: view lifetimes are well nested (a snapshot / indexed batch is not closed or committed while an iterator created from it is open); "+
+			"one write mode per history; an indexed-batch view holds one pending Put or Delete (a pending DeleteRange plus a later direct write is the known finding of section B)")
 	pprof.StopCPUProfile()
 	r.Finish()
 }
